@@ -24,6 +24,8 @@ facets, 4444 facet-less, 1078 withdrawn, 7948 unknown) followed by an observatio
   M13b index_doc removes the docid from _not_indexed before discriminate()                                      caught
   M13c counts() looks at the first 1024 docids only                                                             caught
 """
+import importlib
+
 from lib import zbox
 from lib.core import exc_name, idset
 
@@ -40,7 +42,8 @@ RULE = ("facet sets of 1-7 names from an adversarial pool (a, ab, abc, b, bc, c,
         "docids 0..11 plus extreme ids with path lists matching none/some/nested/duplicated facets, empty "
         "lists and withdrawn values; counts(docids, omit_facets) with known, unknown, facet-less, withdrawn and "
         "repeated ids (lists and query results) and omit lists of facets, descendants and unrelated names; "
-        "Eq/NotEq/Any/NotAny/All/NotAll through index.applyX and query objects, the inherited apply() itself "
+        "Eq/NotEq/Any/NotAny/All/NotAll through index.applyX and query objects (the any/all argument as list, tuple, "
+        "set, frozenset, dict keys view, generator, iterator or map - hash of the command), the inherited apply() itself "
         "(list, tuple, {'query': ..} with operator and/or/absent, bare string), counts() over the index's own "
         "docids()/indexed()/not_indexed(), the enumeration tuple (sometimes twice in a row), identical content "
         "again, unindex twice; segments also upper case, digit, blank, dotted and 40 characters long; both "
@@ -487,7 +490,13 @@ class FacetImpl(object):
     def query(self, via_object, q, raw=False):
         idx = self.idx
         op = q[0]
-        arg = dec(q[1]) if op in ("eq", "noteq") else [dec(c) for c in q[1:]]
+        # "an iterable of facets": list, tuple, set, frozenset, dict keys view, generator, iterator, map - decided by a
+        # hash of the command (props/c01.py)
+        if op in ("eq", "noteq"):
+            arg = dec(q[1])
+        else:
+            c01 = importlib.import_module("props.c01")
+            arg = c01.as_iterable(c01.shape_of([via_object] + list(q)), [dec(c) for c in q[1:]])
         if via_object:
             rs = getattr(idx, op)(arg).execute(optimize=self.opt)
             ids = list(rs.ids)
@@ -714,6 +723,8 @@ def features(case, outs):
         prev_cmd = c
         if c[0] in ("q", "qx"):
             f.append("%s:%s:%s" % (c[0], c[1], "empty" if o == "{}" else "nonempty" if o.startswith("{") else o))
+            if c[1] not in ("eq", "noteq"):
+                f.append("query-arg:" + importlib.import_module("props.c01").shape_of([c[0] == "qx"] + list(c[1:])))
         elif c[0] in ("index", "reindex"):
             if c[0] == "reindex":
                 f.append("via-reindex_doc")
